@@ -53,6 +53,10 @@ pub enum SgrParam {
     BlinkOff,
     Strike,
     StrikeOff,
+    /// 7 / 27: reverse video (only produced by `parse_params`, never generated for decoding:
+    /// a face-modification record cannot express it)
+    Reverse,
+    ReverseOff,
     /// 30..37 / 40..47 (bright=false) or 90..97 / 100..107 (bright=true); Ul not allowed
     Named { role: Role, n: u8, bright: bool },
     Rgb { role: Role, rgb: [u8; 3], form: RgbForm },
@@ -120,6 +124,8 @@ pub fn print_one(p: &SgrParam) -> String {
         SgrParam::BlinkOff => "25".into(),
         SgrParam::Strike => "9".into(),
         SgrParam::StrikeOff => "29".into(),
+        SgrParam::Reverse => "7".into(),
+        SgrParam::ReverseOff => "27".into(),
         SgrParam::Named { role, n, bright } => {
             let base = match (role, bright) {
                 (Role::Fg, false) => 30,
@@ -162,6 +168,7 @@ pub struct SgrState {
     pub italic: bool,
     pub blink: bool,
     pub strike: bool,
+    pub reverse: bool,
 }
 
 fn ul_style(n: u8) -> UnderlineStyle {
@@ -208,6 +215,7 @@ impl SgrState {
             italic: face.attrs.contains(FaceAttrs::ITALIC),
             blink: face.attrs.contains(FaceAttrs::BLINK),
             strike: face.attrs.contains(FaceAttrs::STRIKE),
+            reverse: face.attrs.contains(FaceAttrs::REVERSE),
         }
     }
 
@@ -226,6 +234,8 @@ impl SgrState {
             SgrParam::BlinkOff => self.blink = false,
             SgrParam::Strike => self.strike = true,
             SgrParam::StrikeOff => self.strike = false,
+            SgrParam::Reverse => self.reverse = true,
+            SgrParam::ReverseOff => self.reverse = false,
             other => {
                 if let Some((role, rgb)) = color_of(other) {
                     match role {
@@ -258,6 +268,9 @@ impl SgrState {
         if self.strike {
             attrs = attrs | FaceAttrs::STRIKE;
         }
+        if self.reverse {
+            attrs = attrs | FaceAttrs::REVERSE;
+        }
         attrs = attrs | FaceAttrs::from(ul_style(self.underline));
         let c = |o: Option<[u8; 3]>| o.map(|[r, g, b]| RGBA::new(r, g, b, 255));
         Face::new(c(self.fg), c(self.bg), attrs)
@@ -289,6 +302,7 @@ pub fn to_face_modify(params: &[SgrParam]) -> FaceModify {
             SgrParam::BlinkOff => m.blink = Some(false),
             SgrParam::Strike => m.strike = Some(true),
             SgrParam::StrikeOff => m.strike = Some(false),
+            SgrParam::Reverse | SgrParam::ReverseOff => {}
             other => {
                 if let Some((role, rgb)) = color_of(other) {
                     match role {
@@ -403,6 +417,8 @@ pub fn parse_params(s: &str) -> Option<Vec<SgrParam>> {
             25 => SgrParam::BlinkOff,
             9 => SgrParam::Strike,
             29 => SgrParam::StrikeOff,
+            7 => SgrParam::Reverse,
+            27 => SgrParam::ReverseOff,
             c @ 30..=37 => SgrParam::Named { role: Role::Fg, n: (c - 30) as u8, bright: false },
             c @ 90..=97 => SgrParam::Named { role: Role::Fg, n: (c - 90) as u8, bright: true },
             c @ 40..=47 => SgrParam::Named { role: Role::Bg, n: (c - 40) as u8, bright: false },
